@@ -21,6 +21,17 @@ haiku/optax states) is handled.  Python scalars are immutable and are ignored.
 import numpy as np
 
 
+def _host(leaf):
+  """Host copy of a leaf; typed PRNG keys (jax.random.key) are read through their key data."""
+  import jax
+  try:
+    if isinstance(leaf, jax.Array) and jax.dtypes.issubdtype(leaf.dtype, jax.dtypes.prng_key):
+      return np.array(jax.random.key_data(leaf), copy=True)
+  except Exception:  # pylint: disable=broad-except
+    pass
+  return np.array(leaf, copy=True)
+
+
 def _is_jax_array(x):
   import jax
   return isinstance(x, jax.Array) and not isinstance(x, jax.core.Tracer)
@@ -69,7 +80,7 @@ def snapshot_tree(tree, freeze_numpy=True):
           'path': path,
           'kind': 'jax',
           'obj': leaf,
-          'value': np.array(leaf, copy=True),
+          'value': _host(leaf),
           'ptr': _pointer(leaf),
       })
       snap.n_jax += 1
@@ -115,7 +126,7 @@ def verify_tree(ctx, snap, key_prefix, outputs=None, check_alias=False, witness=
                        f"caller-owned jax.Array {e['path']} is deleted (its buffer was donated) after the call", w):
         ok = False
         continue
-      now = np.asarray(e['obj'])
+      now = _host(e['obj'])
       if not ctx.check(_same_bits(now, e['value']), f'{key_prefix}:input-changed',
                        f"caller-owned jax.Array {e['path']} changed value during the call",
                        {**w, 'before': e['value'], 'after': now}):
